@@ -19,6 +19,9 @@ K7 clean slate per search: the matching module's functions mutate only container
 K6 pruning decision table: for the standard aromatic atom kinds named in the statement (c, n, o, s, p, [nH], substituted
    n, [n+], and their bracketed twins) the pruning predicate, abstractly interpreted on exact rationals, keeps exactly
    those that need a pi bond
+K9 write-back phases: kekulize() first resets the aromatic bonds to single and only then writes the double bonds of the
+   matching; no reset (constant order 1) is reachable after a double-bond write (constant order 2) -- interleaving the two
+   makes the result depend on the iteration order of the delocalised subgraph (a later reset undoes an earlier double bond)
 Not decided (value level, see DESIGN.md §4 C05): that the search finds a perfect matching whenever one exists
 (the property text documents a genuine defect there: no blossom contraction), pruning outside the standard kinds
 (radicals, unusual charges), and independence from atom order.
@@ -610,6 +613,7 @@ def run(ctx, rep):
     check_explicit_bond_symbols(ctx, rep, "K5")
     check_prune_table(ctx, rep, ds_field)
     check_vertices_are_kept(ctx, rep, "K8")
+    check_writeback_phases(ctx, rep, "K9")
 
 
 # ----------------------------------------------------------------------------- K6 pruning decision table
@@ -793,3 +797,85 @@ def check_vertices_are_kept(ctx, rep, RULE="K8"):
                    key="vertices/%s" % ("kept" if o == "kept" else "other"))
     if not n:
         rep.note("K8: construction of the matcher's graph not recognised: not decided")
+
+
+def check_writeback_phases(ctx, rep, RULE="K9"):
+    """K9: in kekulize() (and the same-class helpers it calls, summarised by the constant orders they write) no call that
+    writes the constant bond order 1 is reachable after a call that writes the constant order 2.  May-analysis on the
+    structured control flow (sa/flow.py): state = have double bonds been written on some path reaching here."""
+    K = ctx.fn(MG + ".kekulize")
+    cls = ctx.db.classes[MG]
+    sites = {id(s_.node): s_ for s_ in ctx.cg.sites(K)}
+
+    def const_orders(f, call, callee):
+        """constant orders a call passes to a bond-order writer: the callee's parameter that receives 1 / 2 literals"""
+        out = []
+        pos = callee.posparams[1:] if callee.is_method else callee.posparams
+        for i, a in enumerate(call.args):
+            if i < len(pos) and isinstance(a, ast.Constant) and type(a.value) is int and a.value in (1, 2):
+                out.append((pos[i], a.value))
+        for k in call.keywords:
+            if k.arg is not None and isinstance(k.value, ast.Constant) and type(k.value.value) is int and k.value.value in (1, 2):
+                out.append((k.arg, k.value.value))
+        return out
+    # the order parameter: a (method, parameter) that receives the literal 1 at one call and the literal 2 at another, within
+    # kekulize's region of the class
+    region = [K] + [m for m in cls.methods.values() if m is not K and m.qual in set(ctx.cg.region(K))]
+    seen = {}
+    for f in region:
+        for s_ in ctx.cg.sites(f):
+            if isinstance(s_.node, ast.Call) and len(s_.callees) == 1 and s_.callees[0].cls is cls:
+                for par, val in const_orders(f, s_.node, s_.callees[0]):
+                    seen.setdefault((s_.callees[0].qual, par), set()).add(val)
+    writers = {k for k, v in seen.items() if v == {1, 2}}
+    if len(writers) != 1:
+        rep.note("K9: the bond-order writer called with the literal orders 1 and 2 from kekulize()'s region was not identified "
+                 "(%d candidates): write-back phases not decided" % len(writers))
+        return
+    (wq, wpar), = writers
+
+    def events_of_call(f, call, depth=0):
+        s_ = {id(x.node): x for x in ctx.cg.sites(f)}.get(id(call))
+        if s_ is None or len(s_.callees) != 1:
+            return []
+        g = s_.callees[0]
+        if g.qual == wq:
+            return [v for par, v in const_orders(f, call, g) if par == wpar]
+        if g.cls is cls and g is not K and depth < 2:
+            # a helper of the class: every constant order it writes, in source order (its own control flow is not replayed)
+            out = []
+            for c in own_nodes(g.node):
+                if isinstance(c, ast.Call):
+                    out += events_of_call(g, c, depth + 1)
+            return out
+        return []
+
+    bad = {}
+    n_events = [0]
+
+    class Phases(Forward):
+        def join(self, a, b):
+            return a | b
+
+        def simple(self, st, state):
+            for c in ast.walk(st.for_node.iter if hasattr(st, "for_node") else st):
+                if isinstance(c, ast.Call):
+                    for v in events_of_call(K, c):
+                        n_events[0] += 1
+                        if v == 2:
+                            state = state | {"double"}
+                        elif v == 1 and "double" in state:
+                            bad[id(c)] = c
+            return state
+    Phases(K.node).run(frozenset())
+    if not n_events[0]:
+        rep.note("K9: kekulize() writes no constant bond orders: write-back phases not decided")
+        return
+    w = None
+    if bad:
+        c = next(iter(bad.values()))
+        w = "the reset to order 1 at line %d can run after a double bond of the matching has been written (same loop or later " \
+            "statement): a bond already made double can be reset, depending on the iteration order of the subgraph" % c.lineno
+    rep.ob(RULE, not bad, (next(iter(bad.values())) if bad else K.node), K, construct="order-1 resets and order-2 writes in kekulize()",
+           how="may-dataflow over the structured control flow: no reset reachable after a double-bond write", witness=w, nontrivial=True,
+           key="writeback-phases")
